@@ -13,7 +13,9 @@ Props/C01.lean (section "regenerated code"):
   * the print sequences of `TestOutput::printFailure` and everything it calls (both working-environment
     formats, the selection between them, the one-location / two-location layouts, the message), and
     `TestFailure::isOutsideTestFile / isInHelperFunction`;
-  * `CompositeTestOutput`: for every forwarded callback the list of receivers in order.
+  * `CompositeTestOutput`: for every forwarded callback the list of receivers in order;
+  * `CommandLineTestRunner::initializeTestRun`: every statement that writes the process-wide static
+    `UtestShell::rethrowExceptions_` (guard and value), in order.
 
 Everything is parsed from the token structure of the function bodies; a statement outside the
 understood subset raises TranslateError (handled like a broken obligation).
@@ -24,6 +26,7 @@ from .common import *
 UTEST = "src/CppUTest/Utest.cpp"
 OUTPUT = "src/CppUTest/TestOutput.cpp"
 FAILURE = "src/CppUTest/TestFailure.cpp"
+RUNNER = "src/CppUTest/CommandLineTestRunner.cpp"
 
 CTOKEN = re.compile(r'\s*("(?:\\.|[^"\\])*"|[A-Za-z_][A-Za-z_0-9]*|\d+|->|::|\.\.\.|\+\+|--|==|!=|<=|>=|&&|\|\||[-+*/%<>=!&|(){}\[\];,.?:~])')
 
@@ -397,7 +400,51 @@ COMPOSITE_CALLBACKS = ["printTestsStarted()", "printTestsEnded(result)", "printC
                        "printVeryVerbose(str)", "flush()"]
 
 
+def parse_rethrow_init(body):
+    """the statements of initializeTestRun that call UtestShell::setRethrowExceptions -> [(guard, value)]"""
+    opt = r"arguments_->isRethrowingExceptions\(\)"
+    guards = [(r"", ".always"), (r"if\(%s\)" % opt, ".ifOption"), (r"if\(%s==true\)" % opt, ".ifOption"),
+              (r"if\(!%s\)" % opt, ".ifNotOption"), (r"if\(%s==false\)" % opt, ".ifNotOption")]
+    values = [(opt, ".option"), ("!" + opt, ".notOption"), ("true", ".lit true"), ("false", ".lit false")]
+    out = []
+    for st in re.sub(r"\s+", "", body).split(";"):
+        if "setRethrowExceptions" not in st and "rethrowExceptions_" not in st:
+            continue
+        if st.startswith("else") and out and out[-1][0] in (".ifOption", ".ifNotOption"):     # the other branch of the `if` before
+            other = ".ifNotOption" if out[-1][0] == ".ifOption" else ".ifOption"
+            for v, vname in values:
+                if re.fullmatch(r"elseUtestShell::setRethrowExceptions\(" + v + r"\)", st):
+                    out.append((other, vname))
+                    break
+            else:
+                raise TranslateError("initializeTestRun: statement writing the rethrow flag is outside the understood subset: " + st[:160])
+            continue
+        for g, gname in guards:
+            for v, vname in values:
+                if re.fullmatch(g + r"UtestShell::setRethrowExceptions\(" + v + r"\)", st):
+                    out.append((gname, vname))
+                    break
+            else:
+                continue
+            break
+        else:
+            raise TranslateError("initializeTestRun: statement writing the rethrow flag is outside the understood subset: " + st[:160])
+    return out
+
+
 def extract():
+    rn = strip_comments(read(RUNNER))
+    rethrow_init = parse_rethrow_init(function_body(rn, r"void\s+CommandLineTestRunner::initializeTestRun\s*\(\s*\)\s*\{"))
+    ut_src = strip_comments(read(UTEST))
+    m = re.search(r"void\s+UtestShell::setRethrowExceptions\s*\(\s*bool\s+(\w+)\s*\)\s*\{", ut_src)
+    b = re.sub(r"\s+", "", function_body(ut_src, r"void\s+UtestShell::setRethrowExceptions\s*\(\s*bool\s+\w+\s*\)\s*\{"))
+    if not m or b != "rethrowExceptions_=%s;" % m.group(1):
+        raise TranslateError("shape of UtestShell::setRethrowExceptions changed: " + b[:120])
+    b = re.sub(r"\s+", "", function_body(ut_src, r"bool\s+UtestShell::isRethrowingExceptions\s*\(\s*\)\s*\{"))
+    if b != "returnrethrowExceptions_;":
+        raise TranslateError("shape of UtestShell::isRethrowingExceptions changed: " + b[:120])
+    if not re.search(r"bool\s+UtestShell::rethrowExceptions_\s*=\s*false\s*;", ut_src):
+        raise TranslateError("the initial value of the static UtestShell::rethrowExceptions_ is not `false`")
     ut = strip_comments(read(UTEST))
     runs = all_bodies(ut, r"void\s+Utest::run\s*\(\s*\)\s*\{")
     if len(runs) != 2:
@@ -564,7 +611,7 @@ def extract():
         if need not in names:
             raise TranslateError("CompositeTestOutput::%s not found" % need)
 
-    text = HEADER % ("translate/extract_runner_code.py", ", ".join([UTEST, OUTPUT, FAILURE, "src/Platforms/Gcc/UtestPlatform.cpp"]))
+    text = HEADER % ("translate/extract_runner_code.py", ", ".join([UTEST, OUTPUT, FAILURE, "src/Platforms/Gcc/UtestPlatform.cpp", RUNNER]))
     text += """namespace Gen.Runner
 
 /-- one statement inside `Utest::run` (phase: 0 setup, 1 body, 2 teardown) -/
@@ -625,6 +672,22 @@ inductive Receiver
   | one | two
 deriving Repr, DecidableEq, Inhabited
 
+/-- guard of a statement of `CommandLineTestRunner::initializeTestRun` that writes `UtestShell::rethrowExceptions_`
+    (the option = `arguments_->isRethrowingExceptions()`, i.e. no `-e`) -/
+inductive InitGuard
+  | always | ifOption | ifNotOption
+deriving Repr, DecidableEq, Inhabited
+
+/-- the value such a statement passes to `UtestShell::setRethrowExceptions` -/
+inductive InitValue
+  | option | notOption | lit (b : Bool)
+deriving Repr, DecidableEq, Inhabited
+
+structure RethrowInit where
+  guard : InitGuard
+  value : InitValue
+deriving Repr, DecidableEq, Inhabited
+
 /-- one statement of `ConsoleTestOutput::printBuffer(s)` / `ConsoleTestOutput::flush()` -/
 inductive IoOp
   | fputs                                  -- PlatformSpecificFPuts(s, PlatformSpecificStdOut)
@@ -661,6 +724,9 @@ deriving Repr, DecidableEq, Inhabited
     text += "/-- `CompositeTestOutput`: the receivers of every forwarded callback, in call order -/\n"
     text += "def compositeReceivers : List (String × List Receiver) := [\n  %s]\n" % ",\n  ".join(
         '("%s", [%s])' % (n, ", ".join(r)) for n, r in comp)
+    text += ("\n/-- `CommandLineTestRunner::initializeTestRun`: the statements that write the process-wide static\n"
+             "    `UtestShell::rethrowExceptions_` (initially false), in order -/\n"
+             "def initializeTestRunRethrowCode : List RethrowInit := [%s]\n" % ", ".join("⟨%s, %s⟩" % gv for gv in rethrow_init))
     text += "end Gen.Runner\n"
     return text
 
